@@ -219,6 +219,12 @@ void
 nni_msgq_aio_put(nni_msgq *mq, nni_aio *aio)
 {
 	nni_mtx_lock(&mq->mq_lock);
+	if (mq->mq_closed) {
+		// Nothing will ever run this queue again.
+		nni_mtx_unlock(&mq->mq_lock);
+		nni_aio_finish_error(aio, NNG_ECLOSED);
+		return;
+	}
 
 	// Complete synchronously if the message can be taken right away.
 	// Only if it has to wait do we start an asynchronous operation; thus
@@ -243,6 +249,11 @@ void
 nni_msgq_aio_get(nni_msgq *mq, nni_aio *aio)
 {
 	nni_mtx_lock(&mq->mq_lock);
+	if (mq->mq_closed) {
+		nni_mtx_unlock(&mq->mq_lock);
+		nni_aio_finish_error(aio, NNG_ECLOSED);
+		return;
+	}
 	// As for put: complete synchronously if a message is available.
 	if ((!nni_list_empty(&mq->mq_aio_getq)) ||
 	    ((mq->mq_len == 0) && nni_list_empty(&mq->mq_aio_putq))) {
